@@ -434,16 +434,17 @@ class ReprParser:
         self.i = j
         if self.at("("):
             self.i += 1
+            indented = self.at("\n")
             fields = []
             while True:
                 self.ws()
                 if self.at("..."):
                     self.i += 3
                     self.expect(")")
-                    return {"kind": 5, "cls": word}
+                    return {"kind": 5, "cls": word, "key": fields[0][1] if fields else None}
                 if self.at(")"):
                     self.i += 1
-                    return {"kind": 9, "cls": word, "fields": fields}
+                    return {"kind": 9, "cls": word, "fields": fields, "indented": indented}
                 k = self.i
                 while t[k] != "=":
                     k += 1
@@ -465,16 +466,53 @@ class ReprParser:
         self.i += 1
 
 
+def enc_tree(nd):
+    """flat encoding of a parsed rendering; mirrors Corr/EqCorr.v:enc_tree"""
+    k = nd["kind"]
+    if k == 4:
+        return [4] + enc_tree(nd["inner"])
+    if k == 5:
+        return [5, 0] if nd.get("key") is None else [5, 1] + enc_tree(nd["key"])
+    if k in (6, 7):
+        out = [k, len(nd["items"])]
+        for x in nd["items"]:
+            out += enc_tree(x)
+        return out
+    if k == 9:
+        out = [9, CLS_ID.get(nd["cls"], 99), int(nd["indented"]), len(nd["fields"])]
+        for n, v in nd["fields"]:
+            out += [attr_id(n)] + enc_tree(v)
+        return out
+    return [k]
+
+
+def nested_indented(nd, top=True):
+    """is some instance below the top rendered in its indented form?  (then the model's
+    length oracle for nested instances is unknown and only two levels are compared)"""
+    k = nd["kind"]
+    if k == 9:
+        if not top and nd["indented"]:
+            return True
+        return any(nested_indented(v, False) for _, v in nd["fields"])
+    if k == 4:
+        return nested_indented(nd["inner"], False)
+    if k == 5:
+        return nd.get("key") is not None and nested_indented(nd["key"], False)
+    if k in (6, 7):
+        return any(nested_indented(x, False) for x in nd["items"])
+    return False
+
+
 def obs_repr(call):
     """-> (status, indented, names, kinds) of one __repr__ call"""
     try:
         s = call()
     except RecursionError:
-        return (ERR_CODES["Fuel"], False, [], [], "RecursionError")
+        return (ERR_CODES["Fuel"], False, [], [], "RecursionError", [])
     except BaseException as e:
         if isinstance(e, (KeyboardInterrupt, SystemExit)):
             raise
-        return (-98, False, [], [], f"{type(e).__name__}: {e}"[:200])
+        return (-98, False, [], [], f"{type(e).__name__}: {e}"[:200], [])
     try:
         p = ReprParser(s)
         node = p.value()
@@ -485,14 +523,15 @@ def obs_repr(call):
         for n, v in node["fields"]:
             names.append(attr_id(n))
             kinds.append([v["kind"]] + [x["kind"] for x in v.get("items", [])])
-        return (1, s.startswith(node["cls"] + "(\n"), names, kinds, s)     # top-level form indented?
+        tree = [] if nested_indented(node) else enc_tree(node)
+        return (1, node["indented"], names, kinds, s, tree)
     except (ValueError, IndexError, KeyError) as e:
-        return (-97, False, [], [], f"unparsable repr ({e}): {s[:200]}")
+        return (-97, False, [], [], f"unparsable repr ({e}): {s[:200]}", [])
 
 
 def robs_term(o):
     return (f"(mk_robs {cz(o[0])} {cbool(o[1])} {clist(o[2], lambda n: f'{n}%nat')} "
-            f"{clist(o[3], lambda ks: clist(ks, cz))})")
+            f"{clist(o[3], lambda ks: clist(ks, cz))} {clist(o[5], cz)})")
 
 
 # ------------------------------------------------------------------ running one case
@@ -530,6 +569,8 @@ def run_case(F, case):
         o_t = obs_repr(lambda: x.__repr__(indent=True))
         o_n = obs_repr(lambda: repr(x))
         heap, _ = heap_terms(F, x)
+        STATS["repr:modes-compared-as-full-tree"] = STATS.get("repr:modes-compared-as-full-tree", 0) + sum(1 for o in (o_f, o_t, o_n) if o[5])
+        STATS["repr:modes-compared-two-levels-only"] = STATS.get("repr:modes-compared-two-levels-only", 0) + sum(1 for o in (o_f, o_t, o_n) if not o[5])
         term = f"mk_repr {ct} {heap} 0%nat {robs_term(o_f)} {robs_term(o_t)} {robs_term(o_n)}"
         return "check_repr", term, {"indent=False": o_f[4], "indent=True": o_t[4], "indent=None": o_n[4]}
     raise AssertionError(k)
